@@ -118,6 +118,7 @@ struct nni_pipe {
 	nni_listener      *p_listener;
 	nni_atomic_bool    p_closed;
 	nni_atomic_flag    p_stop;
+	bool               p_starting; // protocol pipe_start running (s_mx)
 	nni_reap_node      p_reap;
 	nni_refcnt         p_refcnt;
 	nng_pipe_ev        p_last_event;
@@ -153,6 +154,7 @@ extern void nni_listener_stop(nni_listener *);
 
 extern void nni_pipe_add(nni_pipe *);
 extern void nni_pipe_remove(nni_pipe *);
+extern void nni_pipe_wait_started(nni_pipe *);
 extern bool nni_pipe_is_closed(nni_pipe *);
 extern void nni_pipe_run_cb(nni_pipe *, nng_pipe_ev);
 
